@@ -35,7 +35,10 @@ RULE = (
     "descriptor / change tables equal the later-wins union of the pieces'; "
     "the pieces themselves are unchanged afterwards; components rebuilt in "
     "the smallest class that can hold them (a plain molecule handed to a "
-    "reaction-graph compose) still compose to the original. "
+    "reaction-graph compose) still compose to the original; in half of the "
+    "cases the same object is afterwards renamed in place (components and "
+    "compose of its parts must follow) and loses a bond (components must "
+    "follow). "
     "Non-trivial: a descriptor or change straddles the cut, S is a one-shot "
     "iterator, or the graph has >= 2 components; distinct = SHA-1."
 )
@@ -112,13 +115,29 @@ def gen(data: bytes):
                 # two whole graphs on top of each other, either order
                 case["pieces"] = [list(atoms), list(atoms)]
                 case["pieces_src"] = tp.pick([["a", "b"], ["b", "a"]])
+    if atoms and tp.chance(128):
+        pool = list(dict.fromkeys(tp.shuffle(atoms) + [700, 701, -3, 2**40]))
+        tgt = tp.shuffle(pool)[:len(atoms)] if tp.chance(128) \
+            else tp.shuffle(atoms)
+        bl = sorted(m.bonds, key=sorted)
+        case["later"] = {"mapping": [[a, b] for a, b in zip(atoms, tgt)],
+                         "cut": sorted(tp.pick(bl)) if bl else None}
     return case
+
+
+def _later_for(case, atoms):
+    lt = case.get("later")
+    if not lt:
+        return {}
+    cut = lt.get("cut")
+    return {"later": {"mapping": [p for p in lt["mapping"] if p[0] in atoms],
+                      "cut": cut if cut and set(cut) <= atoms else None}}
 
 
 def shrink(case):
     for cand in rc.shrink_candidates(case["a"], strict=False):
         atoms = {a[0] for a in cand["atoms"]}
-        yield {**case, "a": cand,
+        yield {**case, "a": cand, **_later_for(case, atoms),
                "subset": [x for x in case["subset"] if x in atoms],
                "pieces": [[x for x in p if x in atoms]
                           for p in case["pieces"]]} if "b" not in case \
@@ -287,7 +306,58 @@ def check_case(ctx, case):
             if sc[key] != ws[key]:
                 raise Violation(f"C17/{cls}/compose-pieces/{key}",
                                 f"{sc[key]} vs {ws[key]}")
+    # ---- the same object later in its life: after an in-place renaming
+    # and after losing a bond the partition (and compose of its parts) must
+    # follow; a component list remembered from the calls above must not
+    if case.get("later"):
+        mp = {a: b for a, b in case["later"]["mapping"]}
+        if set(mp) != set(ma.atoms) or len(set(mp.values())) != len(mp):
+            raise HarnessError("later.mapping must be a bijection on atoms")
+        with guard(f"C17/{cls}/later/relabel-inplace"):
+            g.relabel_atoms(dict(mp), copy=False)
+        bonds = [frozenset(mp[x] for x in b) for b in ma.bonds]
+        cut = case["later"].get("cut")
+        for stage in ("relabelled", "bond-removed"):
+            if stage == "bond-removed":
+                if cut is None or frozenset(mp[x] for x in cut) not in bonds:
+                    break
+                cb = frozenset(mp[x] for x in cut)
+                with guard(f"C17/{cls}/later/remove_bond"):
+                    g.remove_bond(*cb)
+                bonds.remove(cb)
+            wantl = _partition(list(mp.values()), bonds)
+            with guard(f"C17/{cls}/later/{stage}/connected_components"):
+                compl = [set(c) for c in g.connected_components()]
+            if len({frozenset(c) for c in compl}) != len(compl) or \
+                    {frozenset(c) for c in compl} != wantl:
+                raise Violation(
+                    f"C17/{cls}/later/{stage}/wrong-partition",
+                    f"{compl} vs {sorted(map(sorted, wantl))}")
+            if stage != "relabelled":
+                # remove_bond keeps descriptors that now straddle two
+                # components: compose(parts) == g is not claimed there
+                continue
+            with guard(f"C17/{cls}/later/{stage}/compose-components"):
+                whole = C.compose([g.subgraph(sorted(c, key=repr))
+                                   for c in compl])
+            d = snap_diff(snapshot(whole, f"C17/{cls}/later/{stage}"),
+                          snapshot(g, f"C17/{cls}/later/{stage}"), "exact")
+            if d:
+                raise Violation(
+                    f"C17/{cls}/later/{stage}/compose-components/"
+                    f"{diff_kind(d)}", d)
     return ma
+
+
+def _partition(atoms, bonds):
+    comp = {a: frozenset([a]) for a in atoms}
+    for b in bonds:
+        x, y = tuple(b)
+        if comp[x] is not comp[y]:
+            u = comp[x] | comp[y]
+            for z in u:
+                comp[z] = u
+    return set(comp.values())
 
 
 def run(ctx):
